@@ -9,7 +9,7 @@
 //        ops  = lock try-<skip> unlock | signal wait twait-<ms> trywait | set reset wait twait-<ms> |
 //               lock try-<skip> unlock wait twait-<ms> set | start-<j> mstart-<j> (member-function overload) xstart-<8j+k> (same on object j with the body of program k) join-<j> dtor-<j> (~Thread) | destroy (sig, mon: delete the object)
 //               glock gunlock (mtx, mon: Mutex::Guard / Monitor::Guard constructed / destroyed) gwait gtwait-<ms> (mon: Guard::wait of the
-//               innermost guard of the thread) | tid (Thread::getCurrentThreadId() == gettid) yield (Thread::yield) - any primitive
+//               innermost guard of the thread) | tid (Thread::getCurrentThreadId() == gettid) yield (Thread::yield) sleep-<ms> (Thread::sleep, virtual clock) - any primitive
 //        try-<skip>: on failure the next <skip> ops of the thread are skipped
 //   run <t.a>,<t.a>,...    (or `run -`)  explicit schedule prefix, default policy afterwards
 //        -> init:<events> <t.a>/<candidates>:<events> ... | <verdict>
@@ -37,7 +37,7 @@ int Debug::printf(const char* format, ...)
 }
 
 enum Prim { P_NONE, P_MTX, P_SEM, P_SIG, P_MON, P_THR };
-enum OpK { K_GLOCK, K_GUNLOCK, K_GWAIT, K_GTWAIT, K_TID, K_YIELD, K_LOCK, K_TRY, K_UNLOCK, K_SIGNAL, K_WAIT, K_TWAIT, K_TRYWAIT, K_SET, K_RESET, K_START, K_MSTART, K_XSTART, K_JOIN, K_DTOR, K_DESTROY };
+enum OpK { K_GLOCK, K_GUNLOCK, K_GWAIT, K_GTWAIT, K_TID, K_YIELD, K_SLEEP, K_LOCK, K_TRY, K_UNLOCK, K_SIGNAL, K_WAIT, K_TWAIT, K_TRYWAIT, K_SET, K_RESET, K_START, K_MSTART, K_XSTART, K_JOIN, K_DTOR, K_DESTROY };
 struct Op { OpK k; long arg; };
 struct Prog { Op ops[64]; int n; unsigned long ret; };
 
@@ -102,6 +102,7 @@ static void runProg(int t)
       sched_event("%d=%d", k, id != 0 && id == (uint32)syscall(SYS_gettid) ? 1 : 0); break;
     }
     case K_YIELD: Thread::yield(); sched_event("%d=v", k); break;
+    case K_SLEEP: Thread::sleep((int64)o.arg); sched_event("%d=v", k); break;   // usleep on the virtual clock (a scheduling point)
     case K_TRY:
     {
       bool r = prim == P_MTX ? mtx->tryLock() : mon->tryLock();
@@ -193,6 +194,7 @@ static bool parseOp(char* s, Op& o)
   else if(!strcmp(s, "gtwait") && dash && mo) o.k = K_GTWAIT;
   else if(!strcmp(s, "tid") && !dash) o.k = K_TID;
   else if(!strcmp(s, "yield") && !dash) o.k = K_YIELD;
+  else if(!strcmp(s, "sleep") && dash) o.k = K_SLEEP;
   else if(!strcmp(s, "try") && dash && (m || mo)) o.k = K_TRY;
   else if(!strcmp(s, "unlock") && !dash && (m || mo)) o.k = K_UNLOCK;
   else if(!strcmp(s, "signal") && !dash && se) o.k = K_SIGNAL;
